@@ -105,14 +105,29 @@ def fstJson (s : FSt) : Json :=
               ("exc", jexc s.exc)]
 
 def parseFRec (j : Json) : R FRec := do
-  return { write := ← optInt (← fld j "write"), ok := ← fldBool j "ok", selected := ← optInt (← fld j "selected"),
+  return { write := ← optInt (← fld j "write"), assign := ← optInt (← fld j "assign"), ok := ← fldBool j "ok",
+           selected := ← optInt (← fld j "selected"),
            idx := ← fldInt j "idx", value := ← fldInt j "value" }
 
 /-! limits -/
 
+def parseCRes (j : Json) : R CRes :=
+  match j with
+  | .str "pass" => pure .pass
+  | .str "stop" => pure .stop
+  | .str t => match excKind? t with
+    | some k => pure (.fail k)
+    | none => throw s!"bad check outcome {t}"
+  | _ => throw "bad check outcome"
+
+def parseLayer (j : Json) : R Layer := do
+  match (← arr j) with
+  | [a, b, c, d] => return { declMin := ← a.getBool?, declMax := ← b.getBool?, declLimits := ← c.getBool?, ownCheck := ← d.getBool? }
+  | _ => throw "bad layer"
+
 def parseLOp (j : Json) : R LOp := do
   match (← arr j) with
-  | [.str "write", x, w] => return .write (← x.getInt?) (← wresWith (·.getInt?) w)
+  | [.str "write", x, c, w] => return .write (← x.getInt?) (← (← arr c).mapM parseCRes) (← wresWith (·.getInt?) w)
   | [.str "writeMin", x] => return .writeMin (← x.getInt?)
   | [.str "writeMax", x] => return .writeMax (← x.getInt?)
   | [.str "writeLimits", a, b] => return .writeLimits (← a.getInt?) (← b.getInt?)
@@ -143,13 +158,13 @@ def parseLimits (j : Json) : R Limits := do
   return { min := ← optInt (← fld j "min"), max := ← optInt (← fld j "max"), limits := ← optPair (← fld j "limits") }
 
 def parseLRec (j : Json) : R LRec := do
-  return { write := ← optInt (← fld j "write"), echo := ← fldBool j "echo", setLimits := ← optPair (← fld j "setLimits"),
+  return { write := ← optInt (← fld j "write"), stopAt := ← optNat (← fld j "stopAt"), echo := ← fldBool j "echo", setLimits := ← optPair (← fld j "setLimits"),
            ok := ← fldBool j "ok", before := ← parseLimits (← fld j "before"), after := ← parseLimits (← fld j "after"),
            value := ← fldInt j "value" }
 
 def lcfg (j : Json) : R LCfg := do
-  return { lo := ← fldInt j "lo", hi := ← fldInt j "hi", hasMin := ← fldBool j "hasMin", hasMax := ← fldBool j "hasMax",
-           hasLimits := ← fldBool j "hasLimits", hasW := ← fldBool j "hasW" }
+  return { lo := ← fldInt j "lo", hi := ← fldInt j "hi", layers := ← (← fldArr j "layers").mapM parseLayer,
+           hasW := ← fldBool j "hasW" }
 
 /-! control -/
 
@@ -232,8 +247,9 @@ def handle (j : Json) : R Json := do
     let s0 := linit cfg (← fldInt j "value0")
     return Json.mkObj [("init", lstJson s0), ("states", jarr ((lrun cfg s0 ops).map lstJson))]
   | "judge_limits" =>
+    let layers ← (← fldArr j "layers").mapM parseLayer
     let trace ← (← fldArr j "trace").mapM parseLRec
-    return verdict (judgeLimits trace 0) (badIdxs limitsOkB trace 0)
+    return verdict (judgeLimits layers trace 0) (badIdxs (limitsOkB layers) trace 0)
   | "control" =>
     let (cfg, _) ← controlCfg j; let ops ← (← fldArr j "ops").mapM parseCOp
     return Json.mkObj [("init", cstJson cfg Frappy.Control.init),
